@@ -802,6 +802,14 @@ func (c *Conn) handle(f *wire.Frame) bool {
 		c.replyMsg(cl.respVersion(v), f.Stream, &message.ProtocolError{ErrorMessage: fmt.Sprintf("Invalid or unsupported protocol version (%d); supported versions are (3/v3, 4/v4 ...)", int(v))}, nil)
 		return true
 	}
+	cl.mu.Lock()
+	started, cv := c.Started, c.Version
+	cl.mu.Unlock()
+	if started && v != cv && primitive.OpCode(f.Op) != primitive.OpCodeStartup && primitive.OpCode(f.Op) != primitive.OpCodeOptions {
+		// as Cassandra does: every frame on a connection must carry the version of its STARTUP
+		c.replyMsg(cv, f.Stream, &message.ProtocolError{ErrorMessage: fmt.Sprintf("Invalid message version. Got %d but previous messages on this connection had version %d", int(v), int(cv))}, nil)
+		return true
+	}
 	body, derr := f.Decode(comp)
 
 	token := ""
